@@ -1,3 +1,4 @@
 //! Type universes: U1 (static, real Rust types) and U2 (all type graphs up to N nodes).
 pub mod u1;
 pub mod u2;
+pub mod u3;
